@@ -50,3 +50,29 @@ __CPROVER_ensures((__CPROVER_return_value != NULL && required == 0 && !g_aa_comm
 __CPROVER_ensures(__CPROVER_return_value != NULL ==> (__CPROVER_return_value->purge_mask.mask[0] == 0 && __CPROVER_return_value->purge_expire == 0 && __CPROVER_return_value->segment_size == g_slices0 * MI_SEGMENT_SLICE_SIZE &&
      g_track_n == 1 && g_map_n2 == 1 && !__CPROVER_return_value->allow_decommit == !!g_aa_pinned));
 #endif
+
+#ifdef VC_CBMC
+/* ================= giving a segment back (C11) ================= */
+int g_af_kind; int g_af_arena_id; size_t g_af_block_index; long g_track_amount; size_t g_mapfreed_n; const mi_segment_t* g_mapfreed_p;
+void c_arena_free_rec2(void* p, size_t size, size_t committed_size, mi_memid_t memid)
+__CPROVER_requires(1) __CPROVER_assigns(g_af_n, g_af_p, g_af_size, g_af_committed, g_af_kind, g_af_arena_id, g_af_block_index)
+__CPROVER_ensures(g_af_n == __CPROVER_old(g_af_n) + 1 && g_af_p == p && g_af_size == size && g_af_committed == committed_size)
+__CPROVER_ensures(g_af_kind == (int)memid.memkind && g_af_arena_id == memid.mem.arena.id && g_af_block_index == memid.mem.arena.block_index);
+static void c_track_size_rec2(long segment_size, mi_segments_tld_t* tld)
+__CPROVER_requires(1) __CPROVER_assigns(g_track_n, g_track_amount) __CPROVER_ensures(g_track_n == __CPROVER_old(g_track_n) + 1 && g_track_amount == segment_size);
+void _mi_segment_map_freed_at(const mi_segment_t* segment)
+__CPROVER_requires(1) __CPROVER_assigns(g_mapfreed_n, g_mapfreed_p) __CPROVER_ensures(g_mapfreed_n == __CPROVER_old(g_mapfreed_n) + 1 && g_mapfreed_p == segment);
+size_t g_rc0;
+#define VC_SEGSIZE(s) ((size_t)(s)->segment_slices * MI_SEGMENT_SLICE_SIZE)
+/* the whole segment -- exactly its own (base, size, memid) -- goes back to the arena layer exactly once, with a committed size that never
+   exceeds the size and equals it when everything is committed; the owner id is cleared first so that no late free reaches it */
+static void mi_segment_os_free(mi_segment_t* segment, mi_segments_tld_t* tld)
+__CPROVER_requires(__CPROVER_is_fresh(segment, sizeof(mi_segment_t)) && __CPROVER_is_fresh(tld, sizeof(mi_segments_tld_t)) && segment->segment_slices >= 1 && segment->segment_slices <= ((size_t)1 << 20))
+__CPROVER_requires(g_af_n == 0 && g_track_n == 0 && g_mapfreed_n == 0 && tld->reclaim_count == g_rc0 && (segment->was_reclaimed ==> g_rc0 >= 1))
+__CPROVER_assigns(segment->thread_id, segment->was_reclaimed, tld->reclaim_count, g_af_n, g_af_p, g_af_size, g_af_committed, g_af_kind, g_af_arena_id, g_af_block_index, g_track_n, g_track_amount, g_mapfreed_n, g_mapfreed_p)
+__CPROVER_ensures(g_af_n == 1 && g_af_p == segment && g_af_size == VC_SEGSIZE(segment) && g_af_committed <= g_af_size)
+__CPROVER_ensures(segment->commit_mask.mask[0] == ~(size_t)0 ==> g_af_committed == g_af_size)
+__CPROVER_ensures(g_af_kind == (int)segment->memid.memkind && g_af_arena_id == segment->memid.mem.arena.id && g_af_block_index == segment->memid.mem.arena.block_index)
+__CPROVER_ensures(segment->thread_id == 0 && g_mapfreed_n == 1 && g_mapfreed_p == segment && g_track_n == 1 && g_track_amount == -(long)VC_SEGSIZE(segment))
+__CPROVER_ensures(!segment->was_reclaimed && tld->reclaim_count == g_rc0 - (__CPROVER_old(segment->was_reclaimed) ? 1 : 0));
+#endif
